@@ -252,7 +252,8 @@ gcry_error_t gcry_cipher_setkey(gcry_cipher_hd_t h, const void *key, size_t keyl
 	guard_r(key, keylen); return real(h, key, keylen);
 }
 
-gcry_error_t gcry_cipher_setiv(gcry_cipher_hd_t h, const void *iv, size_t ivlen) {
+// weak: harness/c20_enc.hh defines its own gcry_cipher_setiv (the AEAD nonce monitor of C20)
+__attribute__((weak)) gcry_error_t gcry_cipher_setiv(gcry_cipher_hd_t h, const void *iv, size_t ivlen) {
 	typedef gcry_error_t (*fn_t)(gcry_cipher_hd_t, const void *, size_t);
 	static fn_t real = real_fn<fn_t>("gcry_cipher_setiv");
 	guard_r(iv, ivlen); return real(h, iv, ivlen);
